@@ -60,6 +60,8 @@ def _judge_vmfault(nested, result, ftype, prot, pid_base):
         txt = str(vm[0])
     except Exception as ex:
         return ('vmfault-raised:' + type(ex).__name__, {'error': repr(ex)[:200]})
+    if len(vm[0].ktraces) != len(evs):
+        return ('composite-window-incomplete', {'kind': 'vmfault', 'got': len(vm[0].ktraces), 'expected': len(evs)})
     m = re.search(r'result: (-?\d+)', txt)
     if not m or int(m.group(1)) != result:
         return ('vmfault-result-not-from-END', {'text': txt, 'result': result})
@@ -122,6 +124,8 @@ def judge_launch(nested):
         str(la[0])
     except Exception as ex:
         return ('launch-raised:' + type(ex).__name__, {'error': repr(ex)[:200]})
+    if len(la[0].ktraces) != len(evs):
+        return ('composite-window-incomplete', {'kind': 'launch', 'got': len(la[0].ktraces), 'expected': len(evs)})
     if sorted(got) != sorted(exp):
         return ('launch-list-not-the-nested-map-records', {'got_n': len(got), 'exp_n': len(exp), 'nested': list(nested)})
     if [g[0] for g in got] != sorted(g[0] for g in got):
@@ -160,6 +164,9 @@ def judge_sampler(flags, items, nframes):
         str(t)
     except Exception as ex:
         return ('sampler-raised:' + type(ex).__name__, {'error': repr(ex)[:200]})
+    own = [e for e in evs if e.tid == 1]
+    if len(t.ktraces) != len(own):
+        return ('composite-window-incomplete', {'kind': 'sampler', 'got': len(t.ktraces), 'expected': len(own)})
     want_info = bool(flags & 0x1) and 'T' in items
     if (t.th_info is not None) != want_info:
         return ('sampler-thread-info-presence', {'flags': hex(flags), 'items': list(items), 'has': t.th_info is not None})
@@ -211,6 +218,31 @@ def judge_sampler_pair(flags1, items1, flags2, items2):
                                                            'frames': repr(t.cs_frames), 'cs_flags': repr(t.cs_flags)})
     if want_stack and list(t.cs_frames) != w2[:3]:
         return ('sampler-user-stack-frames', {'got': [hex(x) for x in t.cs_frames], 'exp': [hex(x) for x in w2[:3]]})
+    return None
+
+
+def judge_fault_pair(first, second):
+    """two page-fault windows one after the other on the same thread and parser; the second is judged on ITS window only."""
+    def win(nested, base):
+        return [E.ev('MACH_vmfault', 1, (0xaaaa, 0xb000 + base, 1, 0))] + [nested_event(k, base + i, prot=(1 if base else 6)) for i, k in enumerate(nested)] + \
+               [E.ev('MACH_vmfault', 2, (0, 0, 0, 2))]
+    PID_BASE[0] = 100
+    evs = win(first, 0) + win(second, 40)
+    try:
+        out = run(evs)
+        vm = [t for t in out if type(t).__name__ == 'MachVmfault']
+        if len(vm) != 2:
+            return ('vmfault-trace-count', {'n': len(vm)})
+        txt = str(vm[1])
+    except Exception as ex:
+        return ('vmfault-raised:' + type(ex).__name__, {'error': repr(ex)[:200]})
+    pm = re.search(r'vm_prot: ([A-Z_ |]*), pid: (\d+)', txt)
+    real = [(i, k) for i, k in enumerate(second) if k.startswith('RealFault')]
+    decoded = [(i, k) for i, k in real if k in DECODED_KINDS]
+    if pm and not (decoded and any(int(pm.group(2)) == 140 + i for i, k in decoded)):
+        return ('vmfault-pid-from-another-window', {'text': txt, 'first_window': list(first), 'second_window': list(second)})
+    if not pm and real and real[0][1] in DECODED_KINDS:
+        return ('vmfault-pid-omitted-despite-nested-record', {'text': txt, 'nested': list(second)})
     return None
 
 
@@ -274,7 +306,7 @@ class C20(Check):
             'sampler windows: every subset of flags {TH_INFO, KSTACK, USTACK, other} x all sequences of <=4 (quick) / <=6 '
             '(thorough) over {THD_Data, UHdr, UData, UData, unrelated, other thread\'s UData} without repetition x header frame '
             'count {0,3,4,5,9}; PAIRS of sampler windows one after the other on the same thread and parser (3 x 7 x 4 x 7) - the second '
-            'judged on its own window only; each composite with an unrelated call of the same thread nested in it, crossing its end, '
+            'judged on its own window only (likewise pairs of page-fault windows); every composite\'s event list holds its whole window; each composite with an unrelated call of the same thread nested in it, crossing its end, '
             'started inside, started before; each composite preceded by an unfinished window of the same composite. Oracle transcribed from the statement. states = distinct window shapes; transitions = feeds; '
             'non-trivial = window with >=2 nested records.')
     assumptions = ('leniency: first nested real-fault record of the undecoded kind: only "does not raise and omits or uses a later '
@@ -335,6 +367,12 @@ class C20(Check):
                 acc.case(nontrivial=True, transitions=len(i1) + len(i2) + 4, state=h64(('pair', i1, i2)), outcome=h64(('pair', f1, i1, f2, i2)))
                 if bad:
                     acc.violation(bad[0], {'kind': 'pair', 'f1': f1, 'i1': list(i1), 'f2': f2, 'i2': list(i2)}, bad[1])
+            fw = [(), ('RealFaultAddressInternal',), ('RealFaultAddressPurgeable',), ('W',), ('RealFaultAddressExternal', 'K'), ('RealFaultAddressPurgeable', 'RealFaultAddressSharedCache')]
+            for a, b in itertools.product(fw, repeat=2):
+                bad = judge_fault_pair(a, b)
+                acc.case(nontrivial=True, transitions=len(a) + len(b) + 4, state=h64(('fpair', a, b)), outcome=h64(('fpair', a, b)))
+                if bad:
+                    acc.violation(bad[0], {'kind': 'fpair', 'first': list(a), 'second': list(b)}, bad[1])
         elif kind == 'crossing':
             for k in COMPOSITES:
                 for shape in ('none', 'nested', 'crossing', 'crossing-late-start', 'started-before', 'stale-composite-start'):
@@ -362,6 +400,8 @@ class C20(Check):
             bad = judge_vmfault(tuple(case['nested']), case['result'], case['ftype'], case['prot'], case.get('pid_base', 100))
         elif k == 'launch':
             bad = judge_launch(tuple(case['nested']))
+        elif k == 'fpair':
+            bad = judge_fault_pair(tuple(case['first']), tuple(case['second']))
         elif k == 'pair':
             bad = judge_sampler_pair(case['f1'], tuple(case['i1']), case['f2'], tuple(case['i2']))
         elif k == 'crossing':
